@@ -581,8 +581,12 @@ def rule_cleanup_keeps_registry(repo: Repo, rep, rule: str = "R11.5") -> None:
     `rmtree` to the exception emitter the registry must have been read before and be written back after the removal."""
     gen = repo.func("generator.client_generator:ClientGenerator.generate")
     from sa.cfg import CFG
+    from sa.flatten import flatten as _fl115, inline_module_constants as _imc115
     from sa.match import Locals as _L
 
+    # helpers of the generator that read / write / copy files for it are written out; module-level file-name constants are read as their text
+    gen = _imc115(_fl115(gen, select=lambda h: any(isinstance(c.func, ast.Attribute) and c.func.attr in (
+        "read_bytes", "read_text", "write_bytes", "write_text", "copyfile", "copy", "copy2", "rmtree") for c in calls_in(h.node))))
     cfg = CFG(gen.node)
     GL = _L(gen.node)
     REG = ".exception_registry.json"
